@@ -102,22 +102,23 @@ def addop(operator, prec, fun, numargs=None):
 
 
 a = addop
-a(UMinus, 10, lambda x: -x)
-a(UPlus, 10, lambda x: x)
-a("^", 10, math.pow, 2)
-a("not", 9, lambda x: int(not bool(x)))
-a("abs", 9, abs, 1)
-a("sin", 9, math.sin, 1)
-a("cos", 9, math.cos, 1)
-a("asin", 9, math.asin, 1)
-a("acos", 9, math.acos, 1)
-a("tan", 9, math.tan, 1)
-a("atan", 9, math.atan, 1)
-a("exp", 9, math.exp, 1)
-a("ln", 9, math.log, 1)
-a("ceil", 9, lambda x: int(math.ceil(x)))
-a("floor", 9, lambda x: int(math.floor(x)))
-a("trunc", 9, int, 1)
+a(UMinus, 11, lambda x: -x)
+a(UPlus, 11, lambda x: x)
+# documented precedence: e, then unary + -, then the functions, then ^, then * / div mod
+a("^", 9, math.pow, 2)
+a("not", 10, lambda x: int(not bool(x)))
+a("abs", 10, abs, 1)
+a("sin", 10, math.sin, 1)
+a("cos", 10, math.cos, 1)
+a("asin", 10, math.asin, 1)
+a("acos", 10, math.acos, 1)
+a("tan", 10, math.tan, 1)
+a("atan", 10, math.atan, 1)
+a("exp", 10, math.exp, 1)
+a("ln", 10, math.log, 1)
+a("ceil", 10, lambda x: int(math.ceil(x)))
+a("floor", 10, lambda x: int(math.floor(x)))
+a("trunc", 10, int, 1)
 
 
 
@@ -129,8 +130,8 @@ def _scientific(x, y):
     return x * 10**y
 
 
-a("e", 11, _scientific)
-a("E", 11, _scientific)
+a("e", 12, _scientific)
+a("E", 12, _scientific)
 
 a("*", 8, lambda x, y: x * y)
 a("/", 8, lambda x, y: x / y)
